@@ -52,7 +52,7 @@ theorem C08_tracked_timer_removed (s : St) (id : Nat) (res : Res) (e : SEntry) (
     refine ⟨by rw [ht q w hq]; exact (DelayQ.remove_some_spec _ _ _ _ hq).1, ?_⟩
     rcases baseStartSend_cases s id res with ⟨_, h2⟩ | ⟨_, h2⟩ <;> rw [h2] <;>
       rcases removeRequest_cases s id with ⟨hf2, h1⟩ | ⟨e2, hf2, h1⟩ <;> rw [h1] <;>
-      simp [removeTimer] <;> (rw [hf] at hf2; cases hf2; simp [hq])
+      simp [removeTimer] <;> (rw [hf] at hf2; cases hf2; simp [hq]; split <;> simp)
 
 /-- **C08 mechanism: a duplicate request id is ignored** — no execution, no timer, nothing changes. -/
 theorem C08_duplicate_ignored (s : St) (now id d : Nat) (tr : Trace) (b : Nat) (e : SEntry)
